@@ -138,7 +138,8 @@ def jobs(tier):
         for s_ in (0, 1):
             for name in STORIES:
                 out.append({"harness": "mirror", "params": {"flavour": f, "base": 3, "side": s_, "story": name}, "label": "%s/base3/side%d/story=%s" % (f, s_, name)})
-                out.append({"harness": "mirror", "params": {"flavour": f, "base": 3, "side": s_, "story": name, "late": True}, "label": "%s/base3/side%d/late-echo-story=%s" % (f, s_, name)})
+                if not q or f != "path":
+                    out.append({"harness": "mirror", "params": {"flavour": f, "base": 3, "side": s_, "story": name, "late": True}, "label": "%s/base3/side%d/late-echo-story=%s" % (f, s_, name)})
     for f, b, s, n, sl in combos:
         for op in OPS:
             out.append({"harness": "mirror", "params": {"flavour": f, "base": b, "side": s, "nops": n, "slots": sl, "first": op},
